@@ -848,6 +848,8 @@ def run_scope_case(si, target):
     names = sorted(SCOPE_TARGETS)
     key = names[target] if target < len(names) else "absent"
     objects = {k: dict(v) for k, v in SCOPE_TARGETS.items()}
+    if (si + target) % 2:
+        objects["*"] = {"type": "mutex", "name": "star"}            # an object may sit under any key; none of them is a wildcard
     objects["m"] = h_C17.set_path(_with_leaf(member, path), path, [key] if is_list else key)
     try:
         o = stix2.v20.ObservedData(first_observed=gen.TS, last_observed=gen.TS, number_observed=1, objects=objects)
